@@ -85,6 +85,12 @@ def cases(tier, rng):
                 if p != q:
                     add(sh, [("holdterm", q), ("kill", q), ("pause", ""), ("kill", p), ("pause", ""), ("release", "")])
                     add(sh, [("holdterm", q), ("exit", owners[0]), ("pause", ""), ("kill", p), ("pause", ""), ("release", "")])
+        # a pool replaces a dead worker when the next message is dispatched to it: the replacement must go down with the pool as well
+        pools = [l for l, k in ls if k == "pool"]
+        for pl in pools:
+            for wk in [l for l, k in ls if l.startswith(pl + "/#")]:
+                for f, tgt in (("kill", pl), ("exit", pl), ("kill", owners[0]), ("exit", owners[0])):
+                    add(sh, [("kill", wk), ("pause", ""), ("poke", pl), ("settle", ""), (f, tgt)])
         # two and three faults in a row without waiting
         for _ in range(10 if tier == "quick" else 150):
             k = rng.choice([2, 2, 3])
